@@ -3,10 +3,7 @@ from contracts.worker import UNITS_SINGLE, ASSUMPTIONS as W_ASSUMPTIONS
 from contracts.server import EnqueueUnit, AEnqueueUnit, GatherUnit, ASSUMPTIONS as S_ASSUMPTIONS
 UNITS = list(UNITS_SINGLE) + [EnqueueUnit, AEnqueueUnit, GatherUnit]
 ASSUMPTIONS = tuple(W_ASSUMPTIONS) + tuple(S_ASSUMPTIONS)
-from contracts.servlet import UNITS_FORWARD
-UNITS += list(UNITS_FORWARD)
-NOT_DECIDED = ('EnsembleServlet._dequeue (mutable per-request dict-of-list entries): outside pyvc\'s by-value model -> bounded stand-in (runtime battery over arrival orders)',
-               'pickling preserves values across process queues; SequentialServlet wiring is checked in C11')
-BOUNDED = [{'function': 'EnsembleServlet._dequeue', 'method': 'runtime scenario replay/scenarios/c02_server_battery.py', 'bound': 'member latencies forcing every arrival order of 3 members x fail_fast x which members fail', 'counted_as_proved': False}]
+from contracts.servlet import UNITS_FORWARD, UNITS_DEQUEUE
+UNITS += list(UNITS_FORWARD) + list(UNITS_DEQUEUE)
+NOT_DECIDED = ('pickling preserves values across process queues; SequentialServlet wiring is checked in C11',)
 SCENARIOS = [('', 'replay/scenarios/c02_server_battery.py'), ('', 'replay/scenarios/c02a_uid_recycle.py'), ('', 'replay/scenarios/c02b_record_before_enqueue.py')]
-ALWAYS_RUN_SCENARIOS = True      # EnsembleServlet._dequeue is decided only by the bounded stand-in (about 15 s)
